@@ -320,6 +320,8 @@ class Recorder:
         """gid: unique id of this guard function (name@provider). Returns the valuation."""
         kwargs = kwargs or {}
         v = self.val.get(name, True)
+        if isinstance(v, dict) and "by_target" in v:
+            v = v["by_target"].get(getattr(kwargs.get("target"), "id", None), True)
         if isinstance(v, dict):
             v = v.get(gid.split("@")[1], True)
         ev = kwargs.get("event")
